@@ -252,6 +252,28 @@ type InstrMeter struct {
 	MeterId uint32
 }
 
+func (instr *InstrMeter) Len() (n uint16) {
+	return 8
+}
+
+func (instr *InstrMeter) MarshalBinary() (data []byte, err error) {
+	data = make([]byte, instr.Len())
+	binary.BigEndian.PutUint16(data[0:2], instr.Type)
+	binary.BigEndian.PutUint16(data[2:4], instr.Length)
+	binary.BigEndian.PutUint32(data[4:8], instr.MeterId)
+	return
+}
+
+func (instr *InstrMeter) UnmarshalBinary(data []byte) error {
+	if len(data) < int(instr.Len()) {
+		return errors.New("The []byte is too short to unmarshal a full InstrMeter message.")
+	}
+	instr.Type = binary.BigEndian.Uint16(data[0:2])
+	instr.Length = binary.BigEndian.Uint16(data[2:4])
+	instr.MeterId = binary.BigEndian.Uint32(data[4:8])
+	return nil
+}
+
 func (instr *InstrMeter) AddAction(act Action, prepend bool) error {
 	return errors.New("Not supported on this instrction")
 }
